@@ -68,6 +68,18 @@ def run(rep):
     runs += [["consume", lib, ch, "handles=1", "pending=%d" % (ch or 2), "holdms=%d" % (2600 if rep.tier == "quick" else 7000)]
              for lib in (("std",) if rep.tier == "quick" else gen_impl.LIBS) for ch in ((0, 2) if rep.tier == "quick" else (0, 1, 2))]
     rt_common.impl_side(rep, PID, runs, lambda a, d: probe.oracle_consume(d))
+    # the sole-owner guard reads the instance counter: on generic handles too it must count every live clone
+    import debut_harness as dh, hook
+    try:
+        for name, attr, item, obs, prob in dh.clone_count_probe(hook):
+            rep.oblige(False)
+            rep.violation("count_" + name, {"what": "C09: " + prob + " - a clone would pass the sole-owner guard `inter_get_count() <= 1` while other handles exist",
+                                           "attr": attr, "item": item, "observed (stamp:count:name per live handle | comparisons | clock reads)": obs}, found=not prob.startswith("harness"))
+        rep.oblige(True)
+        rep.evaluations += 6
+    except dh.CompileError as e:
+        rep.oblige(False)
+        rep.violation("count_compile", {"what": "generic debut expansion does not compile next to the mock clock", "rustc": str(e)[-1500:]}, found=False)
 
 
 def replay(rep, path):
